@@ -34,7 +34,7 @@ pub fn def() -> CheckDef {
                label, missing / non-zip context archive) must end with exit status 0 and no panic message. Non-trivial: >= 2 formulae with \
                different non-empty results; distinct by (network, formula file, options).",
         assumptions: &["the library side uses the batch entry points, so a caching defect (C04) cannot masquerade as a CLI defect", "counts are compared as printed f64 values"],
-        cases: |t| if t == Tier::Quick { 400 } else { 8000 },
+        cases: |t| if t == Tier::Quick { 1500 } else { 20_000 },
         needs: |t| {
             let m = if t == Tier::Quick { 1 } else { 25 };
             vec![
@@ -161,7 +161,7 @@ fn run_inner(rng: &mut Rng, dir: &str) -> CaseOut {
         Err(e) => return discard(&world, &format!("file not readable: {e}")),
     };
     // formulae
-    let extended = rng.chance(1, 3);
+    let extended = rng.chance(2, 5);
     let mut fopts = FormOpts::plain();
     fopts.bin_ops = ALL_BIN.to_vec();
     fopts.max_size = 8;
@@ -173,7 +173,24 @@ fn run_inner(rng: &mut Rng, dir: &str) -> CaseOut {
         fopts.domain_pct = 40;
     }
     let count = rng.range(1, 4);
-    let forms = gen_batch(rng, &fopts, &world.net.names, count);
+    let mut forms = gen_batch(rng, &fopts, &world.net.names, count);
+    if extended {
+        // results that are derived directly from a context set (the set is the left-most operand), and at
+        // least one formula with a state variable so that the tool's graph differs from the plain encoding
+        for f in forms.iter_mut() {
+            if rng.coin() {
+                *f = match rng.below(4) {
+                    0 => bin(Bin::And, wild("p"), f.clone()),
+                    1 => bin(Bin::Or, wild("q"), f.clone()),
+                    2 => un(Un::EF, wild("p")),
+                    _ => bin(Bin::EU, wild("p"), f.clone()),
+                };
+            }
+        }
+        if forms.iter().all(|f| f.quant_depth() == 0) {
+            forms.push(hyb(Hyb::Bind, "x", Some("d"), un(Un::EX, var("x"))));
+        }
+    }
     let mut style = Style::default();
     style.long_hybrids = rng.coin();
     let texts: Vec<String> = forms.iter().map(|f| if rng.coin() { f.canon() } else { render_styled(f, &style, rng) }).collect();
